@@ -147,12 +147,17 @@ func (s *sliceMachine) Discard(ctx context.Context, task *Task) {
 	if !ok {
 		return
 	}
-	// s exclusively owns task's state during this time, so this does not race
-	// with anything else.
-	task.Set(TaskLost)
+	// s exclusively owns task's state during this time (the task is in state
+	// TaskRunning), so this does not race with anything else. The task is
+	// marked lost only after the worker has discarded it: an evaluator that
+	// sees it lost resubmits it at once, and a worker that still considers
+	// the task complete would report success without recomputing, after
+	// which the pending discard would remove the output behind the back of
+	// the driver, which then believes it to exist.
 	if err := s.RetryCall(ctx, "Worker.Discard", task.Name, nil); err != nil {
 		log.Error.Printf("error discarding %v: %v", task, err)
 	}
+	task.Set(TaskLost)
 }
 
 // Go manages a sliceMachine: it polls stats at regular intervals and
